@@ -12,6 +12,8 @@ Search (direct oracles on the implementation only):
   transforms     normalize_merchant(d, transforms) != normalize_merchant(transformed d, no transforms)
   sequence       a transaction classified after others in the same load (normalize_merchant back to back, or as a row of a
                  statement through parse_generic_csv) gets another merchant/category/subcategory than when classified alone
+  shadow         a file whose let binding / top-level variable is named like a primitive (amount, month, source, ...) classifies
+                 differently from the same file with a fresh name for that binding
   aborted        any exception escapes match()/normalize_merchant (since /repo 58dcdc1 evaluation errors are ExpressionErrors
                  and skip the rule; RCrash stays in the model so that a regression shows up in the oracle tables and here)
 """
@@ -179,6 +181,8 @@ def judge_base(c, jr, ti):
 def variants(ci, c, jr, rnd=None):
     reqs = []
     rnd = case_rnd(c)
+    if c.get('shadow_file'):
+        reqs.append({'ci': ci, 'ti': 0, 'tag': 'shadow', 'case': {'kind': 'rules', 'file': c['shadow_file'], 'txns': c['txns']}})
     for ti, (t, tr) in enumerate(zip(c['txns'], jr['txns'])):
         if c['kind'] == 'rules':
             if 'oracle' not in tr or crashy(tr) or 'crash' in tr['fm'] or 'crash' in tr['ms'] or \
@@ -231,6 +235,22 @@ def judge_variant(c, jr, req, vr):
     """Compare a variant result with its base.  Returns list of (oracle, detail, signature)."""
     if 'parse_error' in vr or 'harness_error' in vr:
         return [('harness', {'why': 'variant did not load', 'detail': vr}, None)]
+    if req['tag'] == 'shadow':
+        out = []
+        for k, (tr, vt) in enumerate(zip(jr['txns'], vr['txns'])):
+            a, b = whole(jr, tr), whole(vr, vt)
+            for w in (a, b):            # the matched pattern TEXT differs by construction (the binding is renamed)
+                for part in ('norm_fm', 'norm_ms'):
+                    if isinstance(w.get(part), dict) and isinstance(w[part].get('info'), dict):
+                        w[part] = dict(w[part], info=dict(w[part]['info'], pattern=None))
+            if a != b:
+                diff = [p for p in a if a[p] != b.get(p)]
+                out.append(('shadow', {'why': 'a let binding / top-level variable named like a transaction primitive does not shadow it: the '
+                                              'file classifies differently from the same file with a fresh name for the binding',
+                                       'transaction': c['txns'][k], 'differs_in': diff, 'fresh_name': {p: a[p] for p in diff},
+                                       'primitive_name': {p: b.get(p) for p in diff}}, None))
+                break
+        return out
     ti = req['ti']
     tr, vt = jr['txns'][ti], vr['txns'][0]
     out = []
@@ -363,6 +383,35 @@ def gen_cases(seed, tier):
         ws = file_words(render_csv(f))
         cases.append({'kind': 'csv', 'file': f, 'txns': with_neighbours(rnd, [gen_txn(rnd, ws) for _ in range(3)]),
                       'ds': DS if k % 2 else None})
+    # corpus: let bindings / top-level variables named like a transaction primitive shadow it (resolution order: scope,
+    # user variables, primitives).  Each file is built twice from one template: with a fresh name, and with the primitive's
+    # name; the right-hand side of the binding still reads the primitive.  The two files must classify alike ('shadow').
+    def shadow_file(nm, prim, rhs, test, as_var):
+        binding = [] if as_var else [(nm, rhs)]
+        rules = [{'name': 'Bound', 'match': f'contains("ACME") and {test.format(n=nm)}', 'category': 'Shopping', 'subcategory': 'Big Ticket',
+                  'merchant': '', 'tags': ['{' + nm + '}', 'bound'], 'priority': None, 'lets': binding, 'fields': [('seen', nm)]},
+                 {'name': 'Plain', 'match': 'contains("ACME")', 'category': 'Shopping', 'subcategory': 'Small', 'merchant': '', 'tags': [],
+                  'priority': None, 'lets': [], 'fields': []},
+                 {'name': 'Tagger', 'match': f'not ({test.format(n=nm)})', 'category': '', 'subcategory': '', 'merchant': '', 'tags': ['other'],
+                  'priority': None, 'lets': binding, 'fields': []}]
+        return {'vars': [(nm, rhs)] if as_var else [], 'tfs': [], 'rules': rules}
+    stx = lambda a, dt, src: {'d': 'ACME FURNITURE REFUND', 'a': a, 'date': dt, 'field': None, 'source': src, 'location': None}
+    for prim, rhs, test in (('amount', 'abs(amount)', '{n} > 100'), ('month', 'month + 12 if year == 2025 else month', '{n} > 12'),
+                            ('year', 'year - 2000', '{n} < 100'), ('day', 'day * 2', '{n} > 31'), ('weekday', 'weekday + 10', '{n} >= 10'),
+                            ('source', 'lowercase(source) + "!"', '{n} == "amex!"'), ('description', 'lowercase(description)', '"acme" in {n}'),
+                            ('date', 'year * 100 + month', '{n} > 202412')):
+        for as_var in (False, True):
+            cases.append({'kind': 'rules', 'ds': None, 'file': shadow_file('zq1', prim, rhs, test, as_var),
+                          'shadow_file': shadow_file(prim, prim, rhs, test, as_var),
+                          'txns': [stx(-128000, '2025-03-16', 'Amex'), stx(128000, '2024-12-31', 'Chase'), stx(5120, '2025-01-15', None)]})
+    # corpus: legacy patterns that are equal up to letter case but mean different things (\d / \D, \s / \S, \w / \W, \b / \B)
+    ltx = lambda d: {'d': d, 'a': 20480, 'date': '2025-01-15', 'field': None, 'source': 'Amex', 'location': None}
+    for lo, up in (('\\d+', '\\D+'), ('\\s\\w', '\\S\\W'), ('\\w+', '\\W+'), ('\\b', '\\B')):
+        for order in ((0, 1), (1, 0)):
+            rws = [{'pattern': 'CHECK ' + lo, 'merchant': 'Check Payment', 'category': 'Bills', 'subcategory': 'Checks', 'tags': ['lo']},
+                   {'pattern': 'CHECK ' + up, 'merchant': 'Check Deposit', 'category': 'Income', 'subcategory': 'Deposits', 'tags': ['up']}]
+            cases.append({'kind': 'csv', 'ds': None, 'file': {'tfs': [], 'rows': [rws[i] for i in order]},
+                          'txns': [ltx('CHECK DEPOSIT MOBILE'), ltx('CHECK 1234'), ltx('CHECK  #9'), ltx('CHECKS')]})
     # corpus: a walrus target in one rule's match (true, false, in a tag-only rule) and LATER rules that read the same name
     # through a let binding, a top-level variable, a primitive, or not at all (then it is undefined: rule skipped)
     wr = lambda n, m, c, lets=(): {'name': n, 'match': m, 'category': c, 'subcategory': '', 'merchant': '', 'tags': [] if c else ['t'],
